@@ -66,10 +66,28 @@ INVERSE_PAIRS = {
     ("'true'", "getboolean(□)"): "INI boolean: 'true' written under a truthy guard, read with getboolean",
     ("str(□)", "int(getfloat(□))"): "integer build timestamps (quantifier: integer timestamps): str <-> int(getfloat)",
     ("str(int(□))", "getint(□)"): "media numbers: str(int(x)) <-> getint",
-    ("','.join(sorted((□ | set([self.arch]))))", "set(list<i for i in □.split(',') if i>)"):
+    ("','.join(sorted((□ | {self.arch})))", "set(list<i for i in □.split(',') if i>)"):
         "platforms: sorted comma list of the set (plus the tree arch, C17) <-> set of the non-empty items",
     ("□", "self._fix_path(□)"): "_fix_path is the identity for every version but 0.0 (R-GATE)",
 }
+
+
+def normalize_shape(t):
+    """value-preserving rewrites so that equivalent spellings give one shape"""
+    def fn(x):
+        if x[0] == "call" and x[1][0] == "global" and len(x[2]) == 1 and not x[3]:
+            f, a = x[1][1], x[2][0]
+            # set([a, b]) / set((a, b))  ->  {a, b}
+            if f == "set" and a[0] in ("list", "tuple") and a[1]:
+                return ("set", a[1])
+            # sorted(list(X)) / sorted(tuple(X)) / set(list(X)) -> drop the inner copy
+            if f in ("sorted", "set", "list", "tuple", "frozenset") and a[0] == "call" and a[1][0] == "global" \
+                    and a[1][1] in ("list", "tuple") and len(a[2]) == 1 and not a[3]:
+                return ("call", x[1], (a[2][0],), ())
+            if f in ("list", "tuple") and a[0] == "call" and a[1] == ("global", "sorted"):
+                return a
+        return None
+    return T.subst(t, fn)
 
 
 def wshape(cx, value, attrs):
@@ -78,7 +96,7 @@ def wshape(cx, value, attrs):
         if a is not None and a in attrs:
             return HOLE
         return None
-    return T.show(T.subst(value, fn))
+    return T.show(normalize_shape(T.subst(value, fn)))
 
 
 def rshape(value, sources):
@@ -98,7 +116,7 @@ def rshape(value, sources):
         if isinstance(t[0], str) and t[0] in T._KINDS:
             return (t[0],) + tuple(rec(x) for x in t[1:])
         return tuple(rec(x) for x in t)
-    return T.show(rec(value))
+    return T.show(normalize_shape(rec(value)))
 
 
 def _const_key(t):
@@ -164,8 +182,9 @@ def r_schema(model, rep, qname, floor_keys):
     # (a) key sets
     wkeys = set(k for k in W if (qname, k) not in WRITTEN_ONLY)
     rkeys = set(k for k in R if (qname, k) not in READ_ONLY)
-    if len(wkeys) < floor_keys:
-        raise AnalysisError("vacuity guard: writer table of %s has %d keys (floor %d)" % (qname, len(wkeys), floor_keys))
+    if len(wkeys | rkeys) < max(1, floor_keys // 2) or not wkeys or not rkeys:
+        raise AnalysisError("vacuity guard: key tables of %s have %d writer / %d reader keys (expected about %d): extraction not "
+                            "understood" % (qname, len(wkeys), len(rkeys), floor_keys))
     for k in sorted(wkeys | rkeys):
         if (qname, k) in SCHEMA_SKIP:
             continue
@@ -449,67 +468,125 @@ def r_required(model, rep):
 # ---------------------------------------------------------------------------------------------------------
 # R-GATE
 # ---------------------------------------------------------------------------------------------------------
-# documented dispatch: (function, sorted list of versions for which the guarded branch is taken, on grid)
-def gate_predicate(spec):
-    op, v = spec
-    return {"<": lambda x: x < v, "<=": lambda x: x <= v, "==": lambda x: x == v, ">=": lambda x: x >= v,
-            ">": lambda x: x > v}[op]
+# documented dispatch.  function -> [(marker, predicate over the version, description)]
+# marker: 'call:<name>'  gated call events of a method/function of that name
+#         'raise'        gated raise events
+#         'any'          every gated event of the function
+def _p(spec):
+    return {
+        "<0.3": lambda v: v < (0, 3), ">=0.3": lambda v: v >= (0, 3), "<=0.3": lambda v: v <= (0, 3), ">0.3": lambda v: v > (0, 3),
+        "<1.0": lambda v: v < (1, 0), "<=1.0": lambda v: v <= (1, 0), "<=1.1": lambda v: v <= (1, 1), ">1.1": lambda v: v > (1, 1),
+        ">=1.1": lambda v: v >= (1, 1), "==0.0": lambda v: v == (0, 0), "!=0.0": lambda v: v != (0, 0),
+        "0.0<v<=0.3": lambda v: (0, 0) < v <= (0, 3),
+    }[spec]
 
 
+THREE_WAY = [("call:deserialize_0_0", "==0.0", "pre-productmd reader"), ("call:deserialize_0_3", "0.0<v<=0.3", "0.3 reader"),
+             ("call:deserialize_1_0", ">0.3", "current reader")]
+TWO_WAY_00 = [("call:deserialize_0_0", "==0.0", "pre-productmd reader"), ("call:deserialize_1_0", "!=0.0", "current reader")]
 GATE_TABLE = {
-    # function qualified name -> list of documented gates, in source order: (op, version, what the branch does)
-    "common.Header.deserialize": [(">=", (1, 1), "metadata type is checked")],
-    "treeinfo.Header.deserialize": [(">=", (1, 1), "metadata type is checked")],
-    "composeinfo.Compose.deserialize": [("<", (0, 3), "date/type/respin derived from the id")],
-    "composeinfo.Release.deserialize": [("<=", (0, 3), "'product' section")],
-    "composeinfo.Variants.deserialize": [("<", (1, 0), "variant tree derived from UID prefixes")],
-    "composeinfo.Variant.deserialize": [("<", (1, 0), "children derived from UID prefixes")],
-    "images.Images.deserialize": [("<=", (1, 1), "src images re-filed under binary arches")],
-    "images.Images.add": [(">=", (1, 1), "identity uniqueness enforced")],
-    "images.Image.deserialize": [("<=", (1, 0), "subvariant optional")],
-    "rpms.Rpms.deserialize": [("<=", (0, 3), "0.3 manifest reader")],
-    "treeinfo.Release.deserialize": [("==", (0, 0), "pre-productmd reader"), ("<=", (0, 3), "'product' section")],
-    "treeinfo.Tree.deserialize": [("==", (0, 0), "pre-productmd reader")],
-    "treeinfo.Variants.deserialize": [("==", (0, 0), "pre-productmd reader")],
-    "treeinfo.VariantPaths.deserialize": [("==", (0, 0), "pre-productmd reader"), ("<=", (0, 3), "lookup reader")],
-    "treeinfo.Variant.deserialize": [("==", (0, 0), "pre-productmd reader"), ("<=", (0, 3), "0.3 reader")],
-    "treeinfo.Images._fix_path": [("==", (0, 0), "absolute legacy paths rewritten")],
-    "treeinfo.Stage2._fix_path": [("==", (0, 0), "absolute legacy paths rewritten")],
-    "treeinfo.Checksums._fix_path": [("==", (0, 0), "absolute legacy paths rewritten")],
-    "treeinfo.Media.deserialize": [("==", (0, 0), "pre-productmd reader")],
+    "common.Header.deserialize": [("raise", ">=1.1", "metadata type is checked")],
+    "treeinfo.Header.deserialize": [("raise", ">=1.1", "metadata type is checked")],
+    "composeinfo.Compose.deserialize": [("call:deserialize_0_3", "<0.3", "date/type/respin derived from the id"),
+                                        ("call:deserialize_1_0", ">=0.3", "current reader")],
+    "composeinfo.Release.deserialize": [("call:deserialize_0_3", "<=0.3", "'product' section"), ("call:deserialize_1_0", ">0.3", "current reader")],
+    "composeinfo.Variants.deserialize": [("call:rsplit", "<1.0", "variant tree derived from UID prefixes")],
+    "composeinfo.Variant.deserialize": [("call:keys", "<1.0", "children derived from UID prefixes")],
+    "images.Images.deserialize": [("call:_add_1_1", "<=1.1", "src images re-filed under binary arches"), ("call:add", ">1.1", "filed as is")],
+    "images.Images.add": [("raise", ">=1.1", "identity uniqueness enforced")],
+    "images.Image.deserialize": [("call:get", "<=1.0", "subvariant optional")],
+    "rpms.Rpms.deserialize": [("call:deserialize_0_3", "<=0.3", "0.3 manifest reader"), ("call:deserialize_1_0", ">0.3", "current reader")],
+    "treeinfo.Release.deserialize": THREE_WAY,
+    "treeinfo.Tree.deserialize": TWO_WAY_00,
+    "treeinfo.Variants.deserialize": TWO_WAY_00,
+    "treeinfo.VariantPaths.deserialize": THREE_WAY,
+    "treeinfo.Variant.deserialize": THREE_WAY,
+    "treeinfo.Images._fix_path": [("any", "==0.0", "absolute legacy paths rewritten")],
+    "treeinfo.Stage2._fix_path": [("any", "==0.0", "absolute legacy paths rewritten")],
+    "treeinfo.Checksums._fix_path": [("any", "==0.0", "absolute legacy paths rewritten")],
+    "treeinfo.Media.deserialize": TWO_WAY_00,
 }
 
 
+def _gated(ev):
+    return any(facts.gate_term_value(g[0], (1, 0)) is not None for g in ev.guards)
+
+
+def _matches(marker, ev):
+    if marker == "any":
+        return True
+    if marker == "raise":
+        return ev.kind == "raise"
+    if marker.startswith("call:"):
+        name = marker[5:]
+        if ev.kind != "call":
+            return False
+        f = ev.value[1]
+        return (f[0] == "attr" and f[2] == name) or (f[0] == "global" and f[1].split(".")[-1] == name)
+    return False
+
+
 def r_gate(model, rep, tier, only=None):
-    """every version gate, evaluated on a version grid, equals the documented dispatch"""
+    """the *dispatch* of every version-gated function (which gated events are active at which version), evaluated by
+    constant folding on a version grid, equals the documented dispatch"""
     grid = facts.version_grid(tier)
     sites = facts.gate_sites(model)
-    by_func = {}
+    funcs = {}
     for s in sites:
-        by_func.setdefault(s.fref.qname, []).append(s)
-    for q in sorted(set(by_func) | set(GATE_TABLE)):
+        funcs.setdefault(s.fref.qname, s.fref)
+    for q in sorted(set(funcs) | set(GATE_TABLE)):
         if only is not None and q not in only:
             continue
-        found = sorted(by_func.get(q, []), key=lambda s: (s.lineno, s.node.col_offset))
         want = GATE_TABLE.get(q)
-        if want is None:
-            for s in found:
-                rep.ob("R-GATE", "%s:undocumented-gate" % q, False, site=s.fref.module.site(s.node),
-                       msg="version gate %s not in the documented dispatch table" % ast.unparse(s.node))
-            continue
-        if len(found) != len(want):
+        if q not in funcs:
             rep.ob("R-GATE", "%s:gates" % q, False, site="productmd/%s.py" % q.split(".")[0],
-                   msg="expected %d version gate(s) (%s), found %d" % (len(want), "; ".join(w[2] for w in want), len(found)))
+                   msg="documented version gate(s) (%s) vanished" % "; ".join(w[2] for w in want))
             continue
-        for s, w in zip(found, want):
-            pred = gate_predicate((w[0], w[1]))
-            diff = [v for v in grid if facts.CMP_FUNCS[s.op](v, s.version) != pred(v)]
-            rep.ob("R-GATE", "%s:%s" % (q, w[2]), not diff, site=s.fref.module.site(s.node),
-                   msg="" if not diff else "gate '%s' dispatches differently from the documented 'version %s %s' at version(s) %s"
-                   % (ast.unparse(s.node), w[0], ".".join(map(str, w[1])), ", ".join("%d.%d" % v for v in diff[:4])),
-                   facts={"gate": ast.unparse(s.node), "documented": "%s %s" % (w[0], w[1]), "grid": len(grid)})
+        f = funcs[q]
+        cx = facts.fctx(model, f)
+        gated = [ev for ev in cx.events if _gated(ev) and ev.kind in ("call", "raise", "store", "bind", "return", "continue", "break")]
+        if want is None:
+            rep.ob("R-GATE", "%s:undocumented-gate" % q, False, site=cx.site(f.node),
+                   msg="version gate in %s is not in the documented dispatch table" % q)
+            continue
+        claimed = set()
+        for marker, spec, what in want:
+            pred = _p(spec)
+            evs = [ev for ev in gated if _matches(marker, ev)]
+            if not evs:
+                rep.ob("R-GATE", "%s:%s" % (q, what), False, site=cx.site(f.node),
+                       msg="no version-gated %s found for the documented dispatch 'version %s -> %s'" % (marker, spec, what))
+                continue
+            diff = []
+            for ev in evs:
+                claimed.add(ev.seq)
+                for v in grid:
+                    if facts.active_at(ev, v) != pred(v):
+                        diff.append(v)
+            diff = sorted(set(diff))
+            rep.ob("R-GATE", "%s:%s" % (q, what), not diff, site=cx.site(evs[0].lineno),
+                   msg="" if not diff else "'%s' happens for a different set of versions than the documented 'version %s': differs at %s"
+                   % (what, spec, ", ".join("%d.%d" % v for v in diff[:6])),
+                   facts={"marker": marker, "documented": spec, "grid": len(grid), "events": len(evs)})
+        # every other gated event must follow one of the documented predicates (or its complement)
+        maps = []
+        for marker, spec, what in want:
+            pred = _p(spec)
+            maps.append(tuple(pred(v) for v in grid))
+            maps.append(tuple(not pred(v) for v in grid))
+        stray = []
+        for ev in gated:
+            if ev.seq in claimed:
+                continue
+            m = tuple(facts.active_at(ev, v) for v in grid)
+            if m not in maps and any(m) and not all(m):
+                stray.append(ev)
+        rep.ob("R-GATE", "%s:no-undocumented-dispatch" % q, not stray, site=cx.site(stray[0].lineno if stray else f.node),
+               msg="" if not stray else "line %s is active for a set of versions that matches no documented gate of %s" % (stray[0].lineno, q))
     if only is None:
-        rep.floor("R-GATE", 22)
+        if len(sites) < 22:
+            raise AnalysisError("vacuity guard: %d version-gate sites found (floor 22)" % len(sites))
+        rep.count("gate_sites", len(sites))
         rep.extra["exhaustive_gate_grid"] = len(grid)
 
 
